@@ -259,6 +259,36 @@ Proof. exact resample_same_grid. Qed.
 Print Assumptions resampling_same_grid_is_identity.
 
 (* ------------------------------------------------------------------ *)
+(* T12 (zero extension in d dimensions).  A linearly interpolated axis evaluated below / above the
+   hull multiplies the interpolant of the first / last slice by the one-cell decay factor
+   (stated for the leading axis; the remaining axes r are arbitrary). *)
+Theorem zero_extension_below_d : forall (c : list R) x (r : list axis) (G : list nat -> R),
+  Asc c -> (2 <= length c)%nat -> x < nth 0 c 0 ->
+  let axes := (SLinear, c, x) :: r in
+  peraxis_point (map a_s axes) (map a_c axes) (wrapped (shape_of axes) G) (map a_x axes) =
+  (1 - (nth 0 c 0 - x) / (nth 1 c 0 - nth 0 c 0)) *
+  peraxis_point (map a_s r) (map a_c r) (wrapped (shape_of r) (fun js => G (O :: js))) (map a_x r).
+Proof. exact peraxis_low_d. Qed.
+Theorem zero_extension_above_d : forall (c : list R) x (r : list axis) (G : list nat -> R),
+  Asc c -> (2 <= length c)%nat -> nth (length c - 1) c 0 < x ->
+  let axes := (SLinear, c, x) :: r in
+  peraxis_point (map a_s axes) (map a_c axes) (wrapped (shape_of axes) G) (map a_x axes) =
+  (1 - (x - nth (length c - 1) c 0) / (nth (length c - 1) c 0 - nth (length c - 2) c 0)) *
+  peraxis_point (map a_s r) (map a_c r) (wrapped (shape_of r) (fun js => G ((length c - 1)%nat :: js))) (map a_x r).
+Proof. exact peraxis_high_d. Qed.
+Print Assumptions zero_extension_below_d.
+Print Assumptions zero_extension_above_d.
+
+(* ------------------------------------------------------------------ *)
+(* T13 (the model of np.searchsorted).  A textbook lower-bound binary search (what
+   np.searchsorted(side='left') runs) returns, on every strictly ascending vector and every x,
+   the prefix count [ssleft] the model uses. *)
+Theorem binary_search_is_prefix_count : forall (c : list R) x, Asc c ->
+  bsearch (length c) c x 0 (length c) = ssleft c x.
+Proof. exact bsearch_ssleft. Qed.
+Print Assumptions binary_search_is_prefix_count.
+
+(* ------------------------------------------------------------------ *)
 (* Non-vacuity: the hypotheses are satisfiable, and the same definitions run at Q. *)
 Example hypotheses_satisfiable :
   Asc [0; 1; 3] /\ good_axis SLinear [0; 1; 3] /\ good_axis SNearest [0; 1; 3] /\
